@@ -110,4 +110,32 @@ def SyncAsm.step (a : SyncAsm) (start : Nat) : Ev → SyncAsm
 
 def SyncAsm.run (a : SyncAsm) (start : Nat) (evs : List Ev) : SyncAsm := evs.foldl (fun a e => a.step start e) a
 
+/-! histories of transfers on one GeckoStructure: the assembly state lives on the structure, so what an earlier (possibly failed)
+transfer left behind is what the next `retry_request` starts from — unless it resets it (generated facts). -/
+
+/-- the structure as constructed: no transfer yet -/
+def SyncAsm.fresh (cli : Block) : SyncAsm :=
+  { nextExp := 0, segs := [], retries := 0, sends := 0, live := false, cli := cli, installed := false }
+
+/-- GeckoStructure.retry_request on a structure that has been used before -/
+def SyncAsm.restart (prev : SyncAsm) (retries : Nat) : SyncAsm :=
+  { nextExp := if syncRequestResetsNext then 0 else prev.nextExp,
+    segs := if syncRequestResetsSegments then [] else prev.segs,
+    retries := retries, sends := 1, live := true, cli := prev.cli, installed := false }
+
+/-- one transfer of a history -/
+structure Xfer where
+  spa : Block
+  start : Nat
+  len : Nat
+  budget : Nat
+  evs : List Ev
+
+def SyncAsm.transfer (prev : SyncAsm) (x : Xfer) : SyncAsm := (SyncAsm.restart prev x.budget).run x.start x.evs
+
+/-- the structure's state after each transfer of a history -/
+def SyncAsm.history (prev : SyncAsm) : List Xfer → List SyncAsm
+  | [] => []
+  | x :: xs => let a := prev.transfer x; a :: SyncAsm.history a xs
+
 end GeckoModel
